@@ -385,8 +385,14 @@ class Slot(FastTypedDict):
 
         if from_dict:
 
+            # do not write into (or share lists with) the caller's data
+            from_dict = dict(from_dict)
+
             cores = from_dict.get('cores')
             gpus  = from_dict.get('gpus')
+
+            if cores: from_dict['cores'] = list(cores)
+            if gpus : from_dict['gpus']  = list(gpus)
 
             if cores:
                 # this is much faster than `isinstance`
